@@ -350,7 +350,7 @@ namespace hs
         else if (k == "next")
             op_next(int(op.arg(0)));
         else if (k == "shrink")
-            op_shrink(int(op.arg(0)));
+            op_shrink(int(op.arg(0)), op.arg(1));
         else if (k == "mv")
             op_move(int(op.arg(0)), int(op.arg(1)));
         else if (k == "mva")
@@ -574,6 +574,8 @@ namespace hs
                     break;
                 }
         }
+        if (c.kind == K_TEMP)
+            op_top(which); // scope 0: the outermost temporary_allocator
         if (c.iter)
         {
             std::size_t sum = 0;
@@ -1482,14 +1484,26 @@ namespace hs
         }
     }
 
-    void Interp::op_shrink(int which)
+    void Interp::op_shrink(int which, long long depth)
     {
         auto S = live_obj(which);
         if (!S || !S->o->caps.shrink)
             return;
         auto& heap = SimHeap::get();
+        // (temporary stack: the request goes to the allocator of a drawn scope, the innermost one or an outer one)
+        std::size_t scope = 0;
+        bool        temp  = S->o->caps.kind == K_TEMP && !S->markers.empty();
+        if (temp)
+        {
+            scope = S->markers.size() - 1 - std::size_t(depth < 0 ? -depth : depth) % S->markers.size();
+            if (scope + 1 != S->markers.size())
+                stats().hit("reach.temp_shrink_requested_on_outer_scope");
+        }
         heap.begin_op(0);
-        S->o->shrink_to_fit();
+        if (temp)
+            S->o->shrink_scope(S->markers[scope].idx);
+        else
+            S->o->shrink_to_fit();
         auto rel = heap.op_releases();
         heap.end_op();
         after_sut_call("shrink_to_fit");
@@ -1510,7 +1524,7 @@ namespace hs
             if (S->markers.empty())
                 S->t_base_flag = true;
             else
-                S->markers.back().t_flag = true;
+                S->markers[scope].t_flag = true;
         }
         hash_.add(0x72);
         if (S->o->caps.kind == K_ARENA && S->o->reading(7) != 0)
